@@ -2,36 +2,49 @@ import Ibx.Gen.FileStore
 import Ibx.Model.FileStore
 /-
   T1 tie for the file-store model (Ibx/Model/FileStore.lean).  Ibx/Gen/FileStore.lean is re-read from
-  pkg/storage/file/{fstore,mbox,fmessage}.go by harness/cmd/extract/filestore.go on every run; each fact is
-  recognised from the shape of the code and comes out as "unknown" / false when the shape is not the expected
-  one, which the theorems below do not accept.  Which modelling decision each fact pins:
+  pkg/storage/file/{fstore,mbox,fmessage}.go by harness/cmd/extract/filestore.go on every run.  Every fact is STRUCTURAL:
+  the extractor never looks at the spelling of a local variable, receiver, unexported helper or unexported field, and
+  helper boundaries do not matter (package-local calls are inlined).  What a fact talks about is found through anchors:
+  the mailbox struct = the struct embedding sync.RWMutex, its message list = its only slice field, its loaded flag = its
+  only bool field; the index loader = the function setting the flag to true; the index writer = the function calling
+  os.Rename; the directory remover = the function calling os.RemoveAll; the message constructor = the function building
+  `Message{… Fid: id …}`; paths are evaluated symbolically (`dir`, `dir/index.gob`, …).  A shape that is not recognised
+  comes out as "unknown" / false, which the theorems below do not accept.  Which modelling decision each fact pins:
 
   * The model state `FS` has NO volatile component and `reopen` is the identity.
-      - `storeFields`, `storeHasCache = "no"`: `type Store struct` holds only the lock table, paths, the cap,
-        a reader pool and the extension host; no map / slice / channel field and no field that mentions `mbox`
-        or `Message`, so a Store object cannot remember mailbox content between calls.
-      - `mboxPerCall = "fresh"`: `(*Store).mbox` and `(*Store).mboxFromHash` build a new `&mbox{…}` on every call
-        and set neither `messages` nor `indexLoaded` (zero values: nil list, index not loaded).
-      - `loadsIndexFirst`: getMessages, getMessage, removeMessage, newMessage, MarkSeen and PurgeMessages all run
-        `if !mb.indexLoaded { mb.readIndex() }` before they first touch `mb.messages`; together with the fresh
-        mbox every operation starts from the index on disk (`readIndex s b` in the model).
-      - `readIndexResets = "truncates"`: readIndex starts with `mb.messages = mb.messages[:0]`, so what it leaves
-        in `mb.messages` is exactly the decoded file, never appended to an older list.
+      - `storeFields = ["plain"]`, `storeHasCache = "no"`: `type Store struct` holds only the lock table, paths, the
+        cap, a reader pool and the extension host; no map / slice / channel anywhere in a field type and no field that
+        mentions a type of package file (the mailbox struct, `Message`), so a Store object cannot remember mailbox
+        content between calls.
+      - `mboxPerCall = "fresh"`: every place that builds a mailbox object (`(*Store).mbox`, `(*Store).mboxFromHash`)
+        uses a keyed literal that sets neither the message list nor the loaded flag (zero values: nil list, index
+        not loaded).
+      - `loadsIndexFirst`: in every exported Store method (helpers inlined: getMessages, getMessage, removeMessage,
+        newMessage, …) the first touch of the message list comes, on every path, after the guard
+        `if !<loaded> { <loader>() }` (in any equivalent layout, also as a helper); together with the fresh mailbox
+        object every operation starts from the index on disk (`readIndex s b` in the model).
+      - `readIndexResets = "truncates"`: the first thing the loader does with the list is `list = list[:0]`, so what
+        it leaves there is exactly the decoded file, never appended to an older list.
   * `writeIndex` replaces the index in one step (the model has no intermediate "empty / prefix index" state):
-      - `fileIndexWrite = "tempThenRename"`: the new index is written to `indexPath + ".tmp"` and renamed over
-        the live one.
+      - `fileIndexWrite = "tempThenRename"`: the new index is created as `dir/index.gob<suffix>` and renamed over
+        the live one (reverted fix: "createInPlace").
   * `writeIndex s b []` is `setDir s b none`, and a reader never sees a listed message without its content:
-      - `writeIndexEmptyRemovesDir = "yes"`: `if len(mb.messages) > 0 { … } else { return mb.removeDir() }`.
-      - `fileRemoveDir = "indexFirst"`: removeDir unlinks `index.gob` before `os.RemoveAll(mb.path)`.
+      - `writeIndexEmptyRemovesDir = "yes"`: the index writer is one test of `len(list)` against 0 whose empty side
+        only removes (unlink / `os.RemoveAll(dir)`) and whose non-empty side removes nothing.
+      - `fileRemoveDir = "indexFirst"`: the remover unlinks `dir/index.gob` before `os.RemoveAll(dir)`
+        (reverted fix: "removeAll").
   * The `.notExist` outcomes of `step` for `.seen`, `.get` / `.latest` and `.remove`:
-      - `markSeenNotFound`, `getNotFound`, `removeNotFound` = "errNotExist" (`storage.ErrNotExist`).
+      - `markSeenNotFound`, `getNotFound`, `removeNotFound` = "errNotExist": what the search over the list answers when
+        nothing matches is `storage.ErrNotExist` (reverted fix: "nil" = nil, nil).
   * `capLoop` runs before the new id is drawn and the entry added, removing `messages[0]` while
     `len(messages) >= cap`:
-      - `capLoopShape = "evictFirstBeforeAdd"`.
+      - `capLoopShape = "evictFirstBeforeAdd"`: a real loop (`for`, not `if`) under exactly the conditions
+        `len(list) >= cap` and `cap > 0`, no early exit, removing `list[0]` through a function that rewrites the index,
+        before the id is drawn.
   * The generator hypothesis of C10 (`FS.next` never repeats an id per mailbox; in the code the id is
     wall-clock second + a process-wide counter that restarts at 0000 with every process):
       - `idGenerator = "secondPlusCounterMod10000"` pins the code shape the hypothesis is stated about.
-      - `fileIdCollisionCheck = "skipsExisting"`: newMessage re-draws while `mb.hasID(id)`, so the id of a message
+      - `fileIdCollisionCheck = "skipsExisting"`: the constructor re-draws while the list holds the id, so the id of a message
         that is still in the mailbox is never handed out again whatever the generator does (finding F-10, fixed;
         Props/C10 `skipExisting_not_present`, counter-witness for the variant "none":
         `ids_repeat_when_generator_restarts_fails`).  The id of a DELETED message can still come back after a
@@ -40,14 +53,12 @@ import Ibx.Model.FileStore
 namespace Ibx.Tie.FileStore
 open Ibx.Model.FileStore
 
-theorem storeFields_tie : Gen.FileStore.storeFields =
-    [("hashLock", "plain"), ("path", "plain"), ("mailPath", "plain"), ("messageCap", "plain"),
-     ("bufReaderPool", "plain"), ("extHost", "plain")] := by decide
+theorem storeFields_tie : Gen.FileStore.storeFields = ["plain"] := by decide
 theorem storeHasCache_tie : Gen.FileStore.storeHasCache = "no" := by decide
 theorem mboxPerCall_tie : Gen.FileStore.mboxPerCall = "fresh" := by decide
 theorem loadsIndexFirst_tie : Gen.FileStore.loadsIndexFirst =
-    [("getMessages", true), ("getMessage", true), ("removeMessage", true), ("newMessage", true),
-     ("MarkSeen", true), ("PurgeMessages", true)] := by decide
+    [("AddMessage", true), ("GetMessage", true), ("GetMessages", true), ("MarkSeen", true),
+     ("PurgeMessages", true), ("RemoveMessage", true), ("VisitMailboxes", true)] := by decide
 theorem readIndexResets_tie : Gen.FileStore.readIndexResets = "truncates" := by decide
 theorem fileIndexWrite_tie : Gen.FileStore.fileIndexWrite = "tempThenRename" := by decide
 theorem writeIndexEmptyRemovesDir_tie : Gen.FileStore.writeIndexEmptyRemovesDir = "yes" := by decide
